@@ -3,4 +3,4 @@ From Coq Require Import Extraction ExtrOcamlBasic ExtrOcamlString ZArith List St
 From Acme.C16 Require Import Model.
 From Acme.C15 Require Import Model Mutators.
 Extraction Language OCaml.
-Extraction "extracted/c15_model.ml" md_raw save_raw dbc_raw walk to_net blocks o_id o_rev o_rot wf_netb clear_spaces mut_bus_name mut_node_id mut_msg_name mut_msg_id mut_msg_static mut_msg_remove_recv mut_msg_add_recv mut_enum_value_index.
+Extraction "extracted/c15_model.ml" md_raw save_raw dbc_raw walk to_net blocks o_id o_rev o_rot wf_netb clear_spaces mut_bus_name mut_node_id mut_msg_name mut_msg_id mut_msg_static mut_msg_remove_recv mut_msg_add_recv mut_enum_value_index mut_node_id_full mask_node_canids.
